@@ -18,6 +18,8 @@ ASSUMPTIONS = [
 KINDS = [k for k in G.ALL_TAGS if G.KINDS[k].origin in ("client", "both")]
 # the same kinds as they may arrive over the wire with an extra attribute that is named like one of the library's flags
 KINDS += ["newTextVector+from_device", "getProperties+from_client-empty", "newSwitchVector+from_device-empty", "getProperties+from_device-empty", "pingReply+from_device"]
+# client writes without child elements: what a message IS does not depend on how many elements it lists
+KINDS += ["newTextVector~0", "newBLOBVector~0"]
 NSH = 16
 
 
@@ -106,6 +108,143 @@ def reentrant_scenarios(res, sig):
                 sig[key] = {"clause": clause, "disc": disc, "what": what, "count": 1, "replay": rep}
 
 
+def real_endpoint_scenarios(res, sig):
+    """the client kinds the library itself provides as ORIGINATORS, used through their own sending path: the snooping
+    client a driver owns (Driver.snooping_client), a stand-alone SnoopingClient, and TCP server connections fed from
+    the wire.  Every client-originated kind x device name x originator; deliveries are recorded at real Driver
+    instances (accepts() real) and at every registered client."""
+    import indi.message as M
+    from indi.device.snoop import SnoopingClient
+    from indi.routing import Client, Router
+
+    from mc.gen import drivers as D
+
+    def note(clause, disc, what, rep):
+        key = (clause, disc)
+        if key in sig:
+            sig[key]["count"] += 1
+        else:
+            sig[key] = {"clause": clause, "disc": disc, "what": what, "count": 1, "replay": rep}
+
+    kinds = [k for k in G.ALL_TAGS if G.KINDS[k].origin in ("client", "both")]
+    for kind in kinds:
+        for addr in R.ADDR:
+            msg = R.msg_of(kind, addr)
+            if msg is None:
+                continue
+            for origin in ("snoop-of-A", "snoop-of-B", "standalone-snoop"):
+                router = Router()
+                log = []
+                devs = {}
+                for name in R.DEVNAMES:
+                    if name not in R._DEV_CLASSES:
+                        spec = dict(name=name, groups=[dict(attr="g", name="G", vectors=[dict(attr="t", kind="text", name="T", elements=[dict(attr="a", name="a", default="x")])])])
+                        R._DEV_CLASSES[name] = D.build_class(spec)[0]
+                    dev = R._DEV_CLASSES[name](router=router)
+                    dev.message_from_client = lambda message, name=name: log.append(("d", name, message))
+                    devs[name] = dev
+
+                class Rec(Client):
+                    def message_from_device(self, message):
+                        log.append(("c", "R", message))
+
+                rec = Rec()
+                router.register_client(rec)
+                snoops = {"snoop-of-A": devs["A"].snooping_client, "snoop-of-B": devs["B"].snooping_client, "standalone-snoop": SnoopingClient(router)}
+                router.register_client(snoops["standalone-snoop"])
+                for sn, sc in snoops.items():
+                    sc.message_from_device = lambda message, sn=sn: log.append(("c", sn, message))
+                log.clear()
+                sender = snoops[origin]
+                exc = None
+                try:
+                    sender.send_message(msg)
+                except Exception as e:  # noqa
+                    exc = e
+                res["transitions"] += 1
+                res["sends"] += 1
+                rep = {"kind": "real-endpoints"}
+                d = "kind=%s,origin=%s" % (kind, "owned-snooping-client" if origin != "standalone-snoop" else origin)
+                if exc is not None:
+                    from mc import lib
+
+                    note("raises", d + "," + lib.exc_site(exc), "%s %r from %s: %r" % (kind, addr, origin, exc), rep)
+                    continue
+                got_d = sorted(n for k, n, m in log if k == "d")
+                got_c = sorted(n for k, n, m in log if k == "c")
+                res["deliveries"] += len(log)
+                want_d = sorted(n for n in R.DEVNAMES if addr is None or addr == n)
+                if kind == "getProperties":
+                    want_c = sorted(["R"] + [sn for sn in snoops if sn != origin])
+                else:
+                    want_c = []
+                res["nondeliveries"] += (len(R.DEVNAMES) + 4) - len(log)
+                if got_d != want_d:
+                    why = "missing" if len(got_d) < len(want_d) else "extra-or-duplicate"
+                    note("device-delivery", d + "," + why, "%s device=%r from %s: devices got %r, expected %r" % (kind, addr, origin, got_d, want_d), rep)
+                if origin in got_c:
+                    note("relay-to-sender", d, "%s device=%r from %s: handed back to its sender" % (kind, addr, origin), rep)
+                elif got_c != want_c:
+                    note("forwarded-to-clients" if kind != "getProperties" else "relay-set", d, "%s device=%r from %s: clients got %r, expected %r" % (kind, addr, origin, got_c, want_c), rep)
+                if kind == "enableBLOB" and addr:
+                    pol = router.blob_routing.get(sender, {}).get(addr)
+                    if str(pol) != str(msg.value):
+                        note("policy-state", d, "enableBLOB %r for %r from %s: recorded policy %r" % (msg.value, addr, origin, pol), rep)
+    wire_scenarios(res, note)
+
+
+def wire_scenarios(res, note):
+    """two TCP connections of a server (created as the server creates them): connection 1's request arrives in two
+    reads, connection 2's whole request in between (every k-th cut, both orders of the last two reads).  Each request
+    must reach the device once and be relayed to the OTHER connection only."""
+    from indi.routing import Device, Router
+    from indi.transport.server.tcp import ConnectionHandler as ServerH
+
+    from mc.core import vloop as V
+
+    m1 = b'<getProperties version="1.7" device="A" name="ONE"/>'
+    m2 = b'<getProperties version="1.7" device="A" name="TWO"/>'
+    for cut in range(1, len(m1), 4):
+        for order in ((0, 1, 0), (0, 0, 1), (1, 0, 0)):
+            loop = V.VLoop().install()
+            try:
+                got = []
+                router = Router()
+
+                class Rec(Device):
+                    def accepts(self, device):
+                        return True
+
+                    def message_from_client(self, message):
+                        got.append(message.name)
+
+                router.register_device(Rec())
+                hf = ServerH.handler(router)
+                eps = [V.Endpoint(loop, "c1"), V.Endpoint(loop, "c2")]
+                tasks = [loop.create_task(hf(ep.reader, ep.writer)) for ep in eps]
+                loop.quiesce()
+                pieces = [[m1[:cut], m1[cut:]], [m2]]
+                nxt = [0, 0]
+                for who in order:
+                    eps[who].feed(pieces[who][nxt[who]])
+                    nxt[who] += 1
+                    loop.quiesce()
+                res["transitions"] += 3
+                res["sends"] += 2
+                w1, w2 = eps[0].written(), eps[1].written()
+                rep = {"kind": "real-endpoints"}
+                d = "transport=tcp,two-connections"
+                if sorted(got) != ["ONE", "TWO"]:
+                    note("device-delivery", d, "cut %d order %r: device got %r, expected one ONE and one TWO" % (cut, order, got), rep)
+                elif w1.count(b'name="TWO"') != 1 or w1.count(b'name="ONE"') != 0 or w2.count(b'name="ONE"') != 1 or w2.count(b'name="TWO"') != 0:
+                    note("relay-set", d, "cut %d order %r: connection 1 was sent %r, connection 2 %r" % (cut, order, w1, w2), rep)
+                if any(t.done() for t in tasks):
+                    note("raises", d + ",handler-ended", "a connection handler ended", rep)
+            finally:
+                loop.teardown()
+                del ServerH.connections[:]
+
+
 def check(model, ev, got, exc, exp):
     from mc import lib
 
@@ -118,7 +257,7 @@ def check(model, ev, got, exc, exp):
     gc = sorted(i for k, i in got if k == "c")
     fails = []
     kind = ev[1] if op == "send" else ("enableBLOB" if op == "enable" else op)
-    base_kind = kind.split("+")[0]
+    base_kind = R.base_kind(kind)
     if gd != sorted(to_dev):
         sender = ev[3] if op == "send" else ("c", ev[1]) if op == "enable" else None
         why = "to-sender" if sender and sender[0] == "d" and sender[1] in gd else ("missing" if len(gd) < len(to_dev) else "extra-or-duplicate")
@@ -145,10 +284,11 @@ def run_shard(shard):
         res = {"capped": 0, "states": 0, "transitions": 0, "sends": 0, "deliveries": 0, "nondeliveries": 0, "violations": [], "samples": [], "counters": {}}
         sig = {}
         reentrant_scenarios(res, sig)
+        real_endpoint_scenarios(res, sig)
         res["violations"] = list(sig.values())
         return res
     n = 2 if tier == "quick" else 3
-    st = R.explore(n, KINDS, check, idx, NSH)
+    st = R.explore(n, KINDS, check, idx, NSH, primed=True)
     return pack(st, n, idx)
 
 
@@ -192,6 +332,11 @@ def _t(x):
 
 
 def replay(rep, chk=None):
+    if rep.get("kind") == "real-endpoints":
+        res = {"transitions": 0, "sends": 0, "deliveries": 0, "nondeliveries": 0}
+        sig = {}
+        real_endpoint_scenarios(res, sig)
+        return [{"clause": v["clause"], "disc": v["disc"], "what": v["what"]} for v in sig.values()]
     if rep.get("kind") == "reentrant":
         res = {"transitions": 0, "sends": 0}
         sig = {}
